@@ -78,6 +78,35 @@ def gen_tables():
     return True, ''
 
 
+def failed_table_modules(out):
+    """Coq module names (TablesX) whose generator failed, from gen_tables.py's output"""
+    mods = set()
+    for m in re.finditer(r'generator (\w+)\.py failed', out):
+        mods.add('Tables' + m.group(1).capitalize())
+    return mods
+
+
+def coq_deps_of_property(pid):
+    """names of the Hv modules the property files of `pid` depend on, transitively (textual Require scan)"""
+    seen, todo = set(), []
+    for f in os.listdir(COQ + '/props'):
+        if re.fullmatch(r'%s(_\w+)?\.v' % pid, f):
+            todo.append(COQ + '/props/' + f)
+    while todo:
+        path = todo.pop()
+        try:
+            txt = open(path, encoding='utf-8').read()
+        except OSError:
+            continue
+        for m in re.finditer(r'(?:From\s+Hv\s+)?Require\s+(?:Import|Export)\s+([^.]*)\.', txt):
+            for name in m.group(1).split():
+                name = name.split('.')[-1]
+                if name not in seen and os.path.exists(COQ + '/theories/' + name + '.v'):
+                    seen.add(name)
+                    todo.append(COQ + '/theories/' + name + '.v')
+    return seen
+
+
 def coq_makefile():
     """_CoqProject is generated from the files present (theories/*.v, props/*.v) so that adding a file needs no
     shared edit; Makefile regenerated when the list changes."""
